@@ -8,6 +8,7 @@
 -/
 import Bridge.Abs
 import PtaProofs.Lemmas.Semantics
+import PtaProofs.Lemmas.SemanticsPlain
 namespace Pta.C01
 open Pta PtaSpec
 
@@ -52,5 +53,72 @@ def exA : Arch := { nodes := ["p", "p.a", "p.a.x", "p.b", "q"].map nm, imports :
 def exR : RuleSpec := { verb := .shouldOnly, importDir := true, exc := false, subjects := [.named (nm "p.a")], objects := [.named (nm "q")] }
 example : exA.wf = true ∧ exR.strict = true ∧ exR.namesIn exA = true := by decide
 example : verdictOf (fun _ _ => false) (archGraph exA) (compile exR) = .pass ∧ verdict exA exR = true := by decide
+
+/-! ### beyond strict rules: plain `should` / `should_not` rules (no `except`, not `anything`) with NAMED subjects and
+    objects. No relation between the names is assumed: a subject may equal an object, be an ancestor or a descendant of
+    one, and either list may contain duplicates. (With `are_sub_modules_of` filters the extension is false.) -/
+
+/-- verdict = documented semantics for plain named rules, on any graph that represents the architecture -/
+theorem verdict_spec_plain_named (mt : Str → Str → Bool) (a : Arch) (g : PGraph Str) (hg : GraphOf a g) (hwf : a.wf = true)
+    (r : RuleSpec) (hverb : r.verb = .should ∨ r.verb = .shouldNot) (hexc : r.exc = false) (hany : r.anything = false)
+    (hnamed : (r.subjects ++ r.objects).all (fun f => !f.isSub) = true) (hnames : r.namesIn a = true)
+    (hs : r.subjects ≠ []) (ho : r.objects ≠ []) :
+    verdictOf mt g (compile r) = VClass.ofBool (verdict a r) :=
+  Pta.verdict_spec_plain_named_lemma mt a g hg hwf r hverb hexc hany hnamed hnames hs ho
+
+/-- the same on the graph the constructor builds -/
+theorem verdict_spec_plain_named_arch (mt : Str → Str → Bool) (a : Arch) (hwf : a.wf = true)
+    (r : RuleSpec) (hverb : r.verb = .should ∨ r.verb = .shouldNot) (hexc : r.exc = false) (hany : r.anything = false)
+    (hnamed : (r.subjects ++ r.objects).all (fun f => !f.isSub) = true) (hnames : r.namesIn a = true)
+    (hs : r.subjects ≠ []) (ho : r.objects ≠ []) :
+    verdictOf mt (archGraph a) (compile r) = VClass.ofBool (verdict a r) :=
+  Pta.verdict_spec_plain_named_lemma mt a (archGraph a) (Pta.archGraph_graphOf a hwf) hwf r hverb hexc hany hnamed hnames hs ho
+
+/-- when a plain named rule fails, the reported atoms are exactly the specification's violating set -/
+theorem report_spec_plain_named (mt : Str → Str → Bool) (a : Arch) (g : PGraph Str) (hg : GraphOf a g) (hwf : a.wf = true)
+    (r : RuleSpec) (hverb : r.verb = .should ∨ r.verb = .shouldNot) (hexc : r.exc = false) (hany : r.anything = false)
+    (hnamed : (r.subjects ++ r.objects).all (fun f => !f.isSub) = true) (hnames : r.namesIn a = true)
+    (hs : r.subjects ≠ []) (ho : r.objects ≠ []) (items : List Item)
+    (h : (assertApplies mt (compile r) g).2 = .fail items) :
+    ∀ x, x ∈ items.flatMap Item.atoms ↔ x ∈ (violating a r).flatMap SItem.atoms :=
+  Pta.report_spec_plain_named_lemma mt a g hg hwf r hverb hexc hany hnamed hnames hs ho items h
+
+/-! non-vacuity: related names (subject `p`, objects `p.a` and `q`), both verbs, both directions; the rules are not
+    strict, meet every hypothesis, and both sides evaluate (to the same verdict) -/
+def exP (v : Verb) (d : Bool) : RuleSpec :=
+  { verb := v, importDir := d, exc := false, subjects := [.named (nm "p")], objects := [.named (nm "p.a"), .named (nm "q")] }
+example : ∀ v ∈ [Verb.should, Verb.shouldNot], ∀ d ∈ [true, false],
+    (exP v d).strict = false ∧ (exP v d).namesIn exA = true ∧ (exP v d).exc = false ∧ (exP v d).anything = false ∧
+    ((exP v d).subjects ++ (exP v d).objects).all (fun f => !f.isSub) = true ∧
+    (exP v d).subjects ≠ [] ∧ (exP v d).objects ≠ [] := by decide
+/-- `p` imports `p.a` (via `p.b → p.a`, inside `p`) and `q` (via `p.a.x → q`): `should import` holds, `should_not` fails -/
+example : verdictOf (fun _ _ => false) (archGraph exA) (compile (exP .should true)) = .pass ∧ verdict exA (exP .should true) = true ∧
+    verdictOf (fun _ _ => false) (archGraph exA) (compile (exP .shouldNot true)) = .fail ∧ verdict exA (exP .shouldNot true) = false := by
+  decide
+/-- nothing in `p.a` or `q` imports into `p` (the importer `p.b` of `p.b → p.a` is not in `p.a`):
+    `should be imported by` fails, `should_not be imported by` passes -/
+example : verdictOf (fun _ _ => false) (archGraph exA) (compile (exP .should false)) = .fail ∧ verdict exA (exP .should false) = false ∧
+    verdictOf (fun _ _ => false) (archGraph exA) (compile (exP .shouldNot false)) = .pass ∧ verdict exA (exP .shouldNot false) = true := by
+  decide
+/-- the failing reports, atom by atom -/
+example : (assertApplies (fun _ _ => false) (compile (exP .shouldNot true)) (archGraph exA)).2 =
+    .fail [.imp "p.b".toList "p.a".toList false, .imp "p.a.x".toList "q".toList false] := by decide
+/-- subject = object and duplicates: `p should_not import p, p` fails because of the import `p.b → p.a` inside `p` -/
+def exS (v : Verb) (d : Bool) : RuleSpec :=
+  { verb := v, importDir := d, exc := false, subjects := [.named (nm "p"), .named (nm "p")], objects := [.named (nm "p"), .named (nm "p.a"), .named (nm "p")] }
+example : ∀ v ∈ [Verb.should, Verb.shouldNot], ∀ d ∈ [true, false],
+    verdictOf (fun _ _ => false) (archGraph exA) (compile (exS v d)) = VClass.ofBool (verdict exA (exS v d)) := by decide
+example : verdict exA (exS .should true) = true ∧ verdict exA (exS .shouldNot true) = false ∧
+    verdict exA (exS .should false) = false ∧ verdict exA (exS .shouldNot false) = false := by decide
+
+/-- why `hnamed` is needed (known from the differential run): with an `are_sub_modules_of` filter related to a named one the
+    extension is false. `p.a` imports `p`; "sub modules of p should_not import p": the specification sees the edge
+    (`p.a` is a strict descendant of `p`, `p` is in `desc p`), `get_dependency_between_modules` drops it because its
+    importee is the parent identifier `p` of the `are_sub_modules_of` filter. All other hypotheses hold. -/
+def exB : Arch := { nodes := ["p", "p.a"].map nm, imports := [(nm "p.a", nm "p")] }
+def exSub : RuleSpec := { verb := .shouldNot, importDir := true, exc := false, subjects := [.subOf (nm "p")], objects := [.named (nm "p")] }
+theorem plain_subOf_counterexample :
+    exB.wf = true ∧ exSub.namesIn exB = true ∧ exSub.exc = false ∧ exSub.anything = false ∧
+    verdictOf (fun _ _ => false) (archGraph exB) (compile exSub) = .pass ∧ verdict exB exSub = false := by decide
 
 end Pta.C01
